@@ -420,6 +420,17 @@ def rule_token(ctx, rid):
                             continue
                     except Exception:
                         pass
+            # an upper slice bound moved, both the old and the new one at or beyond the known end of the sequence
+            if anc and isinstance(anc[-1][0], ast.Slice) and anc[-1][1] == 'upper' and kind == 'const' and isinstance(a, ast.Constant) and isinstance(b, ast.Constant) \
+                    and type(a.value) is int and type(b.value) is int and a.value >= 0 and b.value >= 0 and stmt_new is not None:
+                sub = next((n for n, f in reversed(anc) if isinstance(n, ast.Subscript)), None)
+                try:
+                    here = _counterpart_in_repo(ctx.repo, fi, cur, stmt_new)
+                    if sub is not None and here is not None and implied_at(ctx.repo, fi, here, 'len(%s) <= %d' % (ast.unparse(sub.value), min(a.value, b.value))) is True:
+                        r.ok(k2, fi.site, 'the sequence is known to end at or before %d there' % min(a.value, b.value))
+                        continue
+                except Exception:
+                    pass
             ar = _arith_root(anc)
             if ar is not None:
                 new_e = anc[ar][0]
